@@ -248,6 +248,35 @@ func (t *FnTrans) acquireHavocOnly(mon *monRef, ref string) {
 			t.cur.H[c] = t.newConst(c+"@acq", gs)
 			continue
 		}
+		if strings.HasPrefix(g, "map:") {
+			// the contents of a map-typed field are shared state
+			fname := g[len("map:"):]
+			ft := t.fieldTypeByName(mon.ts.Name, fname)
+			if ft == nil {
+				t.fail("monitor of %s guards map contents of unknown field %s", mon.ts.Name, fname)
+			}
+			mt, ok := t.resolve(ft).Underlying().(*types.Map)
+			if !ok {
+				t.fail("monitor guard map:%s: not a map", fname)
+			}
+			dc, vc, lc := t.mapComps(mt)
+			fc := t.comp("H."+tname+"."+fname, "(Array Int Int)")
+			if _, has := t.compT[fc]; !has {
+				t.compT[fc] = t.resolve(ft)
+			}
+			mref := app("select", t.get(fc), ref)
+			t.cur.H[dc] = app("store", t.get(dc), mref, t.newConst(dc+"@acq", arrayElemSort(t.compSort[dc])))
+			vv := t.newConst(vc+"@acq", arrayElemSort(t.compSort[vc]))
+			t.cur.H[vc] = app("store", t.get(vc), mref, vv)
+			ln := t.newConst(lc+"@acq", "Int")
+			t.assume(app(">=", ln, "0"))
+			t.cur.H[lc] = app("store", t.get(lc), mref, ln)
+			if _, isSl := t.resolve(mt.Elem()).Underlying().(*types.Slice); isSl {
+				ks := t.sortOf(mt.Key())
+				t.assume(fmt.Sprintf("(forall ((mk$k %s)) (! (and (wf-slice (select %s mk$k)) (< (s.base (select %s mk$k)) %s)) :pattern ((select %s mk$k))))", ks, vv, vv, t.get("$alloc"), vv))
+			}
+			continue
+		}
 		if strings.HasPrefix(g, "elems:") {
 			// the elements of a slice-typed field are shared state as well
 			fname := g[len("elems:"):]
@@ -420,6 +449,43 @@ func (t *FnTrans) checkGuarded(p *Ptr, write bool) {
 
 func (t *FnTrans) checkGuardedWrite(p *Ptr) {}
 
+// checkGuardedMap: guarded-by obligation for an access to the contents of a map that was loaded
+// from a field whose contents a monitor guards (guard "map:<field>").
+func (t *FnTrans) checkGuardedMap(m ssa.Value, write bool) {
+	u, ok := m.(*ssa.UnOp)
+	if !ok {
+		return
+	}
+	fa, ok := u.X.(*ssa.FieldAddr)
+	if !ok {
+		return
+	}
+	p := t.ptrOf(fa)
+	tname, field, ok := compParts(p.Comp)
+	if !ok {
+		return
+	}
+	for name, ts := range t.eng.specs.Types {
+		if tshort(name) != tname {
+			continue
+		}
+		for _, mo := range ts.Monitors {
+			for _, g := range mo.Guards {
+				if g != "map:"+field {
+					continue
+				}
+				lc := t.comp("L."+tname+"."+mo.Lock, "(Array Int Int)")
+				st := app("select", t.get(lc), p.Ref)
+				need, what := app(">=", st, "1"), "read"
+				if write {
+					need, what = eq(st, "2"), "write"
+				}
+				t.oblige("guard", or(need, app(">=", p.Ref, q("$alloc@0"))), sprintf("%s of the contents of %s.%s requires %s.%s to be held", what, tname, field, tname, mo.Lock))
+			}
+		}
+	}
+}
+
 // ---------- condition variables (Hamin & Jacobs style ghost counters) ----------
 // Per condition variable C of a monitor: ghost sleep_C (threads asleep on C) and owed_C
 // (notifications that awake threads have promised: recorded with `owe C if e` before they release
@@ -576,7 +642,10 @@ func (t *FnTrans) condField(v ssa.Value) (string, string, string) {
 func (t *FnTrans) atomicCell(recv Val, key string) (*Ptr, bool) {
 	p := recv.P
 	if p == nil {
-		return nil, false
+		if recv.S == "" {
+			return nil, false
+		}
+		p = &Ptr{Kind: "cell", Ref: recv.S} // standalone atomic object referenced by pointer
 	}
 	// key: sync/atomic.Bool.Load etc.
 	parts := strings.Split(strings.TrimPrefix(key, "sync/atomic."), ".")
@@ -783,6 +852,14 @@ func (t *FnTrans) monitorWrites(mon *monRef, tname string, l *loopInfo, base ssa
 				}
 				continue
 			}
+			if strings.HasPrefix(g, "map:") {
+				if ft := t.fieldTypeByName(mon.ts.Name, g[len("map:"):]); ft != nil {
+					if mt, ok := t.resolve(ft).Underlying().(*types.Map); ok {
+						t.wMap(l, mt)
+					}
+				}
+				continue
+			}
 			if c2, s, ok := t.guardComp(mon, tname, g); ok {
 				t.w(l, c2, s)
 			}
@@ -911,6 +988,6 @@ func (t *FnTrans) debtsExit() {
 		if now == was {
 			continue
 		}
-		t.oblige("owed.exit", "(forall ((d$r Int)) (= (select "+now+" d$r) (select "+was+" d$r)))", "every promised notification was delivered before returning ("+c+")")
+		t.oblige("owed.exit", "(forall ((d$r Int)) (=> (< d$r "+q("$alloc@0")+") (= (select "+now+" d$r) (select "+was+" d$r))))", "every promised notification was delivered before returning, for every object that existed at entry ("+c+")")
 	}
 }
